@@ -265,6 +265,12 @@ func (i *Instance) Schema() schema.GraphInstance {
 }
 
 func (i *Instance) EncodeToAppSchema(appSchema *schema.App, encoder *jbtf.Encoder) {
+	// Encoding reads parameter values and node wiring: keep parameter updates
+	// and artifact generation (which write them) out while it does. The
+	// autosave after one client's update runs while other clients keep going.
+	i.producerLock.Lock()
+	defer i.producerLock.Unlock()
+
 	// Binary payloads are appended to the encoder's buffers in the order the
 	// nodes are encoded, so that order has to be the same on every save: map
 	// iteration order is not.
